@@ -221,7 +221,7 @@ pub fn replay(s: &mut Summary, v: &V) {
 
 /// long random histories; one event per call: {ev:"init",s,base} | {ev:op,p,n,ok,ret|err..., st}
 pub fn record(rng: &mut SmallRng, n_events: usize, out: &mut dyn Write) {
-    let alpha: [&str; 9] = ["a", ",", "ñ", " ", "1", "-", "\t", "b", "√"];
+    let alpha: [&str; 13] = ["a", ",", "ñ", " ", "1", "-", "\t", "b", "√", ":", "/", "9", "0"];
     let pats: [&str; 6] = ["a", "ñ", ",", "a,", " ", "ab"];
     const OPS: [&str; 26] = ["pm_strip_prefix", "pm_strip_suffix", "pm_find_skip", "pm_rfind_skip", "pm_trim_start_matches",
         "pm_trim_end_matches", "trim", "trim_start", "trim_end", "trim_matches", "trim_start_matches",
